@@ -644,6 +644,15 @@ pub fn c05(c: &Collector, g: &mut Guard) {
     c.bound("geometries", json!(spec.geoms));
     c.bound("parameter_domain", json!("{absent,0,1..max(C,L)+2,9999}, both parameters independently for CUP/HVP"));
     c.bound("depth", json!(1));
+    // histories through one parser (a parser-side memo of margins / modes / the last position)
+    parser_words(
+        c,
+        "C05",
+        (3, 4),
+        &["\x1b[2;3r", "\x1b[?6h", "\x1b[?6l", "\x1b7", "\x1b8", "\x1bc", "\x1b[H", "\x1b[2B", "\x1b[9;9H", "\x1b[A"],
+        if c.thorough() { 5 } else { 4 },
+        true,
+    );
     g.need(c, "pre_pending_wrap");
     g.need(c, "pre_region");
     g.need(c, "model_changed_state");
@@ -1148,6 +1157,15 @@ pub fn c06(c: &Collector, g: &mut Guard) {
     c.bound("long_scroll_rounds", json!(300));
     c.bound("geometries", json!(gs));
     c.bound("bfs_depth", json!(depth));
+    // histories through one parser
+    parser_words(
+        c,
+        "C06",
+        (2, 3),
+        &["\x1b[1;2r", "\x1b[r", "\x1b[?6h", "\x1b7", "\x1b8", "\x1bc", "\n", "\x1b[3;1H", "k", "\x1bM"],
+        if c.thorough() { 5 } else { 4 },
+        true,
+    );
     g.need(c, "tree_judged");
     g.need(c, "repeated_steps");
     g.need(c, "then_grow");
